@@ -30,6 +30,8 @@ func boolFieldHook(vals map[string]absint.Val) func(st *absint.State, base absin
 }
 
 func runC17(c *core.Ctx) {
+	c.Rule("ENDFLUSH", "the end-of-stream flush bound is above every event time")
+	checkFlushBound(c, "ENDFLUSH")
 	c.Rule("TIMEEQ", "time.Time values are compared with Equal/Before/After, never with ==")
 	checkTimeEquality(c, "TIMEEQ", "execution", "execution/nodes", "octosql", "aggregates", "table_valued_functions", "outputs", "functions", "datasources")
 	_ = c.Prog
